@@ -86,10 +86,7 @@ class Case:
   def close(self):
     config = self.config
     self.gin.clear_config()
-    for sel in [k for k, _ in list(config._REGISTRY.items()) if k not in self._before]:
-      config._REGISTRY.pop(sel)
-    for k in [k for k in list(config._INVERSE_REGISTRY) if k not in self._inv_before]:
-      del config._INVERSE_REGISTRY[k]
+    core.restore_registry(config, self._before, self._inv_before)
     for m in [m for m in sys.modules if m == self.pk or m.startswith(self.pk + '.') or m == self.vend or m.startswith(self.vend + '.')]:
       del sys.modules[m]
     if self.root in sys.path:
